@@ -71,11 +71,28 @@ def run(ctx):
                 violations.append(viol(cfg, data, kind, o, 'a write failure stops the run with an I/O error', a['result'], 'err:io')); continue
             if a['stdout'] != base['stdout'][:o]:
                 violations.append(viol(cfg, data, kind, o, 'what reached the output before the write failure is a prefix of the fault-free output', a['stdout'].decode('utf8', 'replace')[:300], base['stdout'][:o].decode('utf8', 'replace')[:300]))
-    allc = cases + wcases
-    cov = {'evaluations': len(allc), 'distinct_nontrivial': len(set((tuple(lib.cfg_args(meta[c['id']][1])), meta[c['id']][2], meta[c['id']][0], meta[c['id']][3]) for c in allc)),
+    # a FILE argument that fails on read (a symbolic link to /proc/self/mem: the first read returns EIO), named directly or
+    # found inside a directory argument, between two good files: the run stops with an error under every policy
+    fcases = []
+    probe = lib.sh('head -c1 /proc/self/mem >/dev/null 2>&1; echo rc=$?')[1]
+    file_faults = 'rc=1' in probe
+    if file_faults:
+        for pol in ('ignore', 'stdout', 'stderr', 'panic'):
+            for dirmode in (False, True):
+                fcases.append({'id': 'L%s%d' % (pol, dirmode), 'cfg': lib.new_cfg(on_error=pol), 'files': True, 'dir': dirmode,
+                               'inputs': [{'data': b'1 2\n', 'name': 'a_first.json'}], 'links': [['b_bad.json', '/proc/self/mem']]})
+        fimpl = lib.run_harness(fcases)
+        for c in fcases:
+            a = fimpl[c['id']]; checked += 1
+            if a['result'] in ('ok', 'panic', 'hang', 'abort') or not a['result'].startswith('err:'):
+                v = viol(c['cfg'], b'', 'read', 0, 'a file argument that fails on read (%s) stops the run with an error under every policy' % ('inside a directory' if c['dir'] else 'named directly'),
+                         a['result'] + ' ' + a['stdout'].decode('utf8', 'replace')[:200], 'err:io')
+                v['file_fault'] = {'dir': c['dir']}; violations.append(v)
+    allc = cases + wcases + fcases
+    cov = {'evaluations': len(allc), 'failing_file_runs': len(fcases), 'distinct_nontrivial': len(set((tuple(lib.cfg_args(meta[c['id']][1])), meta[c['id']][2], meta[c['id']][0], meta[c['id']][3]) for c in cases + wcases)) + len(fcases),
            'rule': 'generated inputs (some with a malformed region) x every byte offset (sampled above 200) for a failing read after random Interrupted results and short reads x every byte offset of the fault-free output for a failing write x --on-error policies x streaming and buffering pipelines',
            'samples': [common.describe(c) for c in cases[1:3]],
-           'traces_validated_against_impl': len(allc) - len(mism), 'model_mismatches': len(mism), 'direct_relations_checked': checked}
+           'traces_validated_against_impl': len(cases + wcases) - len(mism), 'model_mismatches': len(mism), 'direct_relations_checked': checked}
     broken = ['correspondence: model and implementation differ on %d cases, e.g. %s' % (len(mism), json.dumps(mism[0])[:1500])] if mism else []
     return {'coverage': cov, 'violations': violations, 'broken': broken}
 
@@ -84,7 +101,9 @@ def viol(cfg, data, kind, o, rel, obs, exp):
 
 def replay(ctx, r):
     c = {'id': 'r', 'cfg': lib.new_cfg(), 'args': r['args'], 'inputs': [{'data': bytes.fromhex(r['stdin_hex'])}]}
-    if r['fault'] == 'read': c['inputs'][0]['fail_at'] = r['offset']
+    if r.get('file_fault'):
+        c = {'id': 'r', 'cfg': lib.new_cfg(), 'args': r['args'], 'files': True, 'dir': r['file_fault']['dir'], 'inputs': [{'data': b'1 2\n', 'name': 'a_first.json'}], 'links': [['b_bad.json', '/proc/self/mem']]}
+    elif r['fault'] == 'read': c['inputs'][0]['fail_at'] = r['offset']
     else: c['out_room'] = r['offset']
     a = lib.run_harness([c])['r']
     return {'observed': {'result': a['result'], 'stdout': a['stdout'].decode('utf8', 'replace')[:300]}, 'expected': r.get('expected'), 'fails': a['result'] != 'err:io'}
